@@ -119,6 +119,29 @@ func unlockUnlocked() vrt.Run {
 	}, Verdict: verdict(func() string { return "" })}
 }
 
+// onceOutlives: a sync.Once that lives longer than one execution (a package-level table built on first
+// use): it fires in the first execution of the process only, every later execution finds it done.
+var (
+	outlivingOnce  sync.Once
+	outlivingTable int
+)
+
+func onceOutlives() vrt.Run {
+	got := [2]int{}
+	use := func(i int) func() {
+		return func() {
+			vrt.OnceDo(&outlivingOnce, func() { outlivingTable = 7 })
+			got[i] = outlivingTable
+		}
+	}
+	return vrt.Run{Body: func() {
+		a := vrt.Go(use(0))
+		b := vrt.Go(use(1))
+		vrt.Join(a)
+		vrt.Join(b)
+	}, Verdict: verdict(func() string { return fmt.Sprint(got) })}
+}
+
 func abba(ordered bool) func() vrt.Run {
 	return func() vrt.Run {
 		var a, b sync.Mutex
@@ -407,6 +430,7 @@ func SelfCheck() (ok bool, report []string) {
 		{"pipeline", func() vrt.Run { return pipeline() }, []string{"ok:[0 1 2]"}, ""},
 		{"pool", func() vrt.Run { return pooled() }, []string{"ok:1 0", "ok:1 7", "ok:7 1"}, ""},
 		{"unlock-unlocked", func() vrt.Run { return unlockUnlocked() }, []string{"ok+panic:"}, "ok+panic"},
+		{"once-outlives-execution", func() vrt.Run { return onceOutlives() }, []string{"ok:[7 7]"}, ""},
 		{"cond-rlocker", condReaders(true), []string{"ok:"}, ""},
 		{"cond-rlocker-lost-wakeup", condReaders(false), []string{"deadlock:", "ok:"}, "deadlock"},
 	}
